@@ -287,7 +287,7 @@ def generate(repo, pid='C01', extra_imports=(), extra_opens=(), extra=None, skip
             opens=['Model.C01'] + list(extra_opens))
     if pid != 'C01':
         # items that only C01's own theorems consume (re-emitters C02 / C03 would carry them without an obligation)
-        skip = tuple(skip) + ('mdft.cache_protocol', 'czt.cache_protocol')
+        skip = tuple(skip) + ('mdft.cache_protocol', 'czt.cache_protocol', 'mdft.key_norm', 'czt.key_norm')
     if skip:
         _item = g.item
 
@@ -560,25 +560,35 @@ def generate(repo, pid='C01', extra_imports=(), extra_opens=(), extra=None, skip
                 fs = [x for x in fs if x in role]
                 cur = tgt
                 tgt = None
-            elif isinstance(st, ast.Assign) and isinstance(st.targets[0], ast.Name) and isinstance(st.value, ast.Call):
-                f_ = u(st.value.func)
-                arg0 = u(st.value.args[0]) if st.value.args else None
-                if arg0 != cur:
-                    raise Untranslatable(f'{u(st)} does not continue the pipeline variable {cur}')
-                if f_ == 'fft.fft2':
-                    push('.fft')
-                elif f_ == 'fft.ifft2':
-                    if len(st.value.args) != 1 or st.value.keywords:
-                        raise Untranslatable('ifft2 with extra arguments')
-                    push('.ifft')
-                else:
-                    raise Untranslatable(f'call {f_} in the pipeline')
-                cur = st.targets[0].id
-                continue
-            elif isinstance(st, ast.Assign) and isinstance(st.targets[0], ast.Name) and isinstance(st.value, ast.Subscript):
-                if u(st.value.value) != cur or u(st.value.slice).replace(' ', '') not in (':M,:N', '(:M,:N)', '0:M,0:N', '(0:M,0:N)'):
-                    raise Untranslatable(f'crop statement {u(st)}')
-                push('.crop')
+            elif isinstance(st, ast.Assign) and isinstance(st.targets[0], ast.Name) and isinstance(st.value, (ast.Call, ast.Subscript)):
+                # `x = fft.fft2(cur, ...)`, `x = fft.ifft2(cur)`, `x = cur[:M, :N]`, or these nested in one expression
+                # (`fft.ifft2(cur)[:M, :N]`): the stages are pushed innermost first
+                def apply_expr(e):
+                    if isinstance(e, ast.Name):
+                        if e.id != cur:
+                            raise Untranslatable(f'{u(st)} does not continue the pipeline variable {cur}')
+                        return
+                    if isinstance(e, ast.Subscript):
+                        if u(e.slice).replace(' ', '') not in (':M,:N', '(:M,:N)', '0:M,0:N', '(0:M,0:N)'):
+                            raise Untranslatable(f'crop statement {u(st)}')
+                        apply_expr(e.value)
+                        push('.crop')
+                        return
+                    if isinstance(e, ast.Call) and e.args:
+                        f_ = u(e.func)
+                        if f_ == 'fft.fft2':
+                            apply_expr(e.args[0])
+                            push('.fft')
+                            return
+                        if f_ == 'fft.ifft2':
+                            if len(e.args) != 1 or e.keywords:
+                                raise Untranslatable('ifft2 with extra arguments')
+                            apply_expr(e.args[0])
+                            push('.ifft')
+                            return
+                        raise Untranslatable(f'call {f_} in the pipeline')
+                    raise Untranslatable(f'expression {u(e)[:60]} in the pipeline')
+                apply_expr(st.value)
                 cur = st.targets[0].id
                 continue
             else:
@@ -597,8 +607,13 @@ def generate(repo, pid='C01', extra_imports=(), extra_opens=(), extra=None, skip
                 raise Untranslatable(f'stage {r} uses factors {sorted(used[r])}')
         ic = get_def(ft, 'ChirpZTransformExecutor.iczt2')
         body = [u(x) for x in ic.body if not (isinstance(x, ast.Expr) and isinstance(x.value, ast.Constant))]
+        # `x = <expr>; return x` and `return <expr>` are the same body
+        if len(ic.body) >= 2 and isinstance(ic.body[-1], ast.Return) and isinstance(ic.body[-1].value, ast.Name) \
+                and isinstance(ic.body[-2], ast.Assign) and len(ic.body[-2].targets) == 1 \
+                and u(ic.body[-2].targets[0]) == ic.body[-1].value.id:
+            body = body[:-2] + ['return ' + u(ic.body[-2].value)]
         if body != ['if np.iscomplexobj(ary):\n    ary = np.conj(ary)',
-                    'xformed = np.conj(self.czt2(ary, Q, samples_out, shift))', 'return xformed']:
+                    'return np.conj(self.czt2(ary, Q, samples_out, shift))']:
             raise Untranslatable(f'iczt2 body not recognised: {body}')
         return f'def cztStagesGen : List CztStage := [{", ".join(stages)}]'
     g.item('czt.pipeline', 'prysm/fttools.py:ChirpZTransformExecutor.czt2/iczt2',
@@ -754,7 +769,9 @@ def generate(repo, pid='C01', extra_imports=(), extra_opens=(), extra=None, skip
                 for ln, (d, k) in loads:
                     if not any(sl < ln and sk == k for sl, sk in setups):
                         raise Untranslatable(f'{name} indexes {d}[{k}] without a preceding self._setup_bases({k})')
-                    if len(find_assigns(f, k)) != 1:
+                    # the key variable is assigned once, or is a parameter of a helper (`_adjoint(self, key, ...)`) never re-assigned
+                    is_param = k in [a.arg for a in f.args.args]
+                    if len(find_assigns(f, k)) != (0 if is_param else 1):
                         raise Untranslatable(f'{name}: key variable {k} assigned more than once')
                     uses.append(d)
             resets = []
@@ -778,6 +795,47 @@ def generate(repo, pid='C01', extra_imports=(), extra_opens=(), extra=None, skip
     g.item('czt.cache_protocol', 'prysm/fttools.py:ChirpZTransformExecutor.__init__/_setup_bases/clear/entry points',
            lambda: get_def(ft, 'ChirpZTransformExecutor'), cache_proto('ChirpZTransformExecutor', 'cztProtoGen'),
            f'def cztProtoGen : Proto := {M}.cztProtoRef')
+
+    # =========================================================================== argument forms -> key components
+    def key_norm(fn_name, params, gen_name):
+        def build():
+            fn = get_def(ft, fn_name)
+            rows = []
+            for P in params:
+                bc = False
+                convs = []
+                for n in ast.walk(fn):
+                    if isinstance(n, ast.If) and u(n.test).replace(' ', '') == f'notisinstance({P},Iterable)':
+                        if [u(x).replace(' ', '') for x in n.body] != [f'{P}=({P},{P})'] or n.orelse:
+                            raise Untranslatable(f'scalar {P} is not broadcast to ({P}, {P})')
+                        bc = True
+                    elif isinstance(n, ast.Assign) and len(n.targets) == 1 and u(n.targets[0]) == P:
+                        v = n.value
+                        if u(v).replace(' ', '') == f'({P},{P})':
+                            continue
+                        if isinstance(v, ast.Call) and u(v.func) == 'tuple' and len(v.args) == 1:
+                            a0 = v.args[0]
+                            if u(a0) == P:
+                                convs.append('elem')
+                                continue
+                            if isinstance(a0, ast.GeneratorExp) and len(a0.generators) == 1 and u(a0.generators[0].iter) == P \
+                                    and not a0.generators[0].ifs and isinstance(a0.elt, ast.Call) and len(a0.elt.args) == 1 \
+                                    and u(a0.elt.args[0]) == u(a0.generators[0].target) and u(a0.elt.func) in ('float', 'int'):
+                                convs.append(u(a0.elt.func))
+                                continue
+                        raise Untranslatable(f'{P} re-assigned in an unrecognised way: {u(n)[:70]}')
+                convs = [c for c in convs if c != 'elem'] or ['elem']
+                if len(convs) != 1:
+                    raise Untranslatable(f'{P} converted more than once: {convs}')
+                rows.append(f'⟨"{P}", {"true" if bc else "false"}, "{convs[0]}"⟩')
+            return f'def {gen_name} : List ArgNorm := [{", ".join(rows)}]'
+        return build
+    g.item('mdft.key_norm', 'prysm/fttools.py:MatrixDFTExecutor._key', lambda: get_def(ft, 'MatrixDFTExecutor._key'),
+           key_norm('MatrixDFTExecutor._key', ('Q', 'samples_in', 'samples_out', 'shift'), 'mdftKeyNormGen'),
+           f'def mdftKeyNormGen : List ArgNorm := {M}.mdftKeyNormRef')
+    g.item('czt.key_norm', 'prysm/fttools.py:ChirpZTransformExecutor.czt2', lambda: get_def(ft, 'ChirpZTransformExecutor.czt2'),
+           key_norm('ChirpZTransformExecutor.czt2', ('Q', 'samples_out', 'shift'), 'cztKeyNormGen'),
+           f'def cztKeyNormGen : List ArgNorm := {M}.cztKeyNormRef')
 
     def mdft_wiring():
         sb = get_def(ft, 'MatrixDFTExecutor._setup_bases')
